@@ -102,4 +102,8 @@ MUTANTS = [
     M('lex:string:eof-is-terminated', 'lex', ['C11'], "Cursor<'_>::double_quoted_string", "        // End of file reached.\n        (terminated, only_ones_and_zeros, consecutive_underscores)", "        // End of file reached.\n        (true, only_ones_and_zeros, consecutive_underscores)"),
     M('lex:block_comment:no-nesting', 'lex', ['C11', 'C15'], "Cursor<'_>::block_comment", "                    self.bump();\n                    depth += 1;", "                    self.bump();"),
     M('lex:block_comment:unterminated-flag', 'lex', ['C11'], "Cursor<'_>::block_comment", "terminated: depth == 0,", "terminated: true,"),
+    # ---- C08 kind lowering
+    M('sema:decl:float-to-int-only-void-reported', 'sema', ['C08'], 'classical_declaration_statement_to_asg_stmt', 'if promoted_type == Type::Void || &promoted_type == init_type {', 'if promoted_type == Type::Void {'),
+    M('types:can_cast_literal:bool<-int', 'types', ['C08'], 'can_cast_literal', '(Float(..), Int(..)) => true,', '(Float(..), Int(..)) => true,\n        (Bool(..), Int(..)) => true,'),
+    M('types:promote_base:cross-kind-const-and', 'types', ['C08', 'C20'], 'promote_base_type', '(Int(..), Float(..)) => ty2.clone(),', '(Int(..), Float(w, _)) => Float(*w, promote_constness(ty1, ty2)),'),
 ]
